@@ -34,6 +34,9 @@ def run(ctx):
     from .c13 import r13a
 
     ctx.each(r13a, ctx, repo)
+    from . import c09 as _c09
+
+    ctx.each(_c09.r09b, ctx, repo, K.types(repo))  # spending in force at a time is the last value entered at or before it (stepped), for the program book and for overwrites alike
     from . import c20 as _c20
 
     ctx.each(_c20.r20e, ctx, repo)  # the number eligible that coverage is reported against is summed into a fresh array, never into the result's stored compartment sizes
